@@ -349,35 +349,31 @@ func paramsInChildRuleSSA(r *Run, rule string) {
 	nSet, bad := 0, ""
 	var badPos token.Pos
 	for _, p := range pw.paths {
+		// the scope of the function's own: what the first write to the scope field installs
 		install := -1
-		var entry map[ssa.Value]bool
+		var installed ssa.Value
 		for i, ev := range p.events {
-			switch x := ev.(type) {
-			case *ssa.Store:
-				if isCtxAddr(p.resolve(x.Addr)) && install < 0 {
-					// the first write that is not a restore
-					if entry == nil {
-						entry = map[ssa.Value]bool{}
-					}
-					install = i
-				}
-			case *ssa.Call:
-				if !x.Call.IsInvoke() || x.Call.Method.Name() != "Set" || len(x.Call.Args) != 2 {
-					continue
-				}
-				// (the operand as written: the walker forwards the installed value to this load)
-				ld, ok := x.Call.Value.(*ssa.UnOp)
-				if !ok || ld.Op != token.MUL || !isCtxAddr(p.resolve(ld.X)) {
-					continue
-				}
-				nSet++
-				at, seen := p.loadAt[ld]
-				switch {
-				case install < 0:
-					bad, badPos = "on some path a parameter is bound although no scope of the function's own was installed: it lands in the scope that happens to be current", x.Pos()
-				case !seen || at <= install:
-					bad, badPos = "a parameter is bound on the scope that was current BEFORE the function's own scope was installed", x.Pos()
-				}
+			if st, ok := ev.(*ssa.Store); ok && isCtxAddr(p.resolve(st.Addr)) && install < 0 {
+				install, installed = i, p.resolve(st.Val)
+			}
+		}
+		for _, ev := range p.events {
+			x, ok := ev.(*ssa.Call)
+			if !ok || !x.Call.IsInvoke() || x.Call.Method.Name() != "Set" || len(x.Call.Args) != 2 {
+				continue
+			}
+			if !namedIs(x.Call.Value.Type(), hctxPath, "Context") && !namedIs(x.Call.Value.Type(), modPath, "Context") {
+				continue
+			}
+			nSet++
+			// the receiver: the installed scope itself -- read from the field after the install, or the
+			// very value that is installed (a scope that is filled first and entered afterwards)
+			recv := p.resolve(x.Call.Value)
+			switch {
+			case install < 0:
+				bad, badPos = "on some path a parameter is bound although no scope of the function's own was installed: it lands in the scope that happens to be current", x.Pos()
+			case recv != installed:
+				bad, badPos = "a parameter is bound on another scope than the one the function installs for itself (the scope that was current before, or a scope that is never entered)", x.Pos()
 			}
 		}
 	}
